@@ -65,4 +65,21 @@ theorem C06_alias (fetch : Bytes → Option Table) (t : TableName) (rows : List 
       (∀ a, t.alias = some a → ∀ f ∈ fields, f.tableId = a) ∧ (t.alias = none → ∀ f ∈ fields, f.tableId = t.name) :=
   fetchTable_alias fetch t rows fields h
 
+/-- **C06.padding_null_in_an_ordering_comparison**: a comparison `<`, `<=`, `>`, `>=` one operand of
+which evaluates to NULL - in particular the NULL an outer join padded an unmatched row with - is
+false, never an error: `t LEFT JOIN u ON … LEFT JOIN v ON u.k < v.k` keeps every unmatched row of
+`t` instead of failing as soon as one exists (the repaired defect).  (`=` and `!=` compare NULL as a
+value, as before.) -/
+theorem C06_padding_null_in_an_ordering_comparison (p : Pred) (fields : List Field) (row : Row)
+    (l r : Tuple.Val) (hl : evalPrimary p.lhs fields row = .ok l) (hr : evalPrimary p.rhs fields row = .ok r)
+    (hop : p.op ≠ Generated.t_EQ ∧ p.op ≠ Generated.t_NEQ) (hnull : l = .null ∨ r = .null) :
+    evalPred p fields row = .ok false := by
+  unfold evalPred
+  simp only [bind, hl, hr]
+  have h1 : (p.op == Generated.t_EQ) = false := by simpa using hop.1
+  have h2 : (p.op == Generated.t_NEQ) = false := by simpa using hop.2
+  have h3 : (l == Tuple.Val.null || r == Tuple.Val.null) = true := by
+    rcases hnull with rfl | rfl <;> simp
+  simp [h1, h2, h3, pure]
+
 end Mkdb.Exec
